@@ -158,6 +158,7 @@ CANARIES = {
         ("oldest-returned", "stix2/datastore/memory.py", "text", ['candidate["modified"] > stix_obj["modified"]', 'candidate["modified"] < stix_obj["modified"]'], "C11.newest"),
     ],
     "C12": [
+        ('dot-names-pass-the-entry-test', 'stix2/datastore/filesystem.py', 'text', ['                    or filename in (".", ".."):\n', '                    or filename in ():\n'], 'C12.optimiser-table'),
         ('layout-guessed-from-the-query', 'stix2/datastore/filesystem.py', 'text', ['            type_is_versioned = _is_versioned_type_dir(type_path, type_dir)', '            type_is_versioned = _is_versioned_type_dir(type_path, type_dir) if auth_ids.auth_type != AuthSet.WHITE else True'], 'C12.optimiser-table'),
         ("operator-flipped", "stix2/datastore/filters.py", "flip-compare", ["Filter._check_property", "GtE -> Gt", "stix_obj_property >= filter_value"], "C12.operator-table"),
         ("optimiser-unsound", "stix2/datastore/filesystem.py", "str-perturb", ["_find_search_optimizations", "'!='"], "C12.optimiser-table"),
